@@ -13,6 +13,8 @@ for sid in sorted(tab):
     own = [r["results"][prop] for r in runs if prop in r["results"]]
     others = sorted({p for r in runs for p, v in r["results"].items() if p != prop and v["fired"]})
     first = ("fired" if own[0]["fired"] else "missed") if own else "-"
+    if note.startswith("extended after reading"):
+        first = "missed by construction (extended before the first run)"
     last = ("fired" if own[-1]["fired"] else "MISSED") if own else "-"
     if others:
         last += " (also %s)" % ", ".join(others)
